@@ -244,6 +244,23 @@ void run_C11(void) {
     return;
   }
   if (!strcmp(G.mode, "leaks")) {
+    // N = 1: only the NTT120 module and the q120 tables exist there
+    if (case_begin("new/delete|N=1 objects", "ntt120 module and q120 tables")) {
+      for (int i = 0; i < 50; i++) {
+        MODULE* mo = new_module_info(1, NTT120);
+        delete_module_info(mo);
+        q120_ntt_precomp* f = q120_new_ntt_bb_precomp(1);
+        q120_ntt_precomp* g = q120_new_intt_bb_precomp(1);
+        q120_del_ntt_bb_precomp(f);
+        q120_del_intt_bb_precomp(g);
+      }
+      cnt("object_cycles", 150);
+#if VP_ASAN
+      if (__lsan_do_recoverable_leak_check()) viol("leak", "LeakSanitizer reports memory still allocated after matched new/delete calls of N = 1 objects");
+      cnt("leak_check_rounds", 1);
+#endif
+      case_end(1);
+    }
     for (size_t ni = 0; ni < N_ALL_N; ni++)
       for (unsigned rep = 0; rep < (th ? 6u : 2u); rep++) lifecycle_case(ALL_N[ni], rep);
     return;
